@@ -137,6 +137,22 @@ func Run(rn *ribdrv.Runner, ins []Input, base uint64) error {
 			if err := rn.Step(ribdrv.Input{A: "op", Op: in.Op}); err != nil {
 				return err
 			}
+		case "flushT":
+			// the target is flushed after it was populated (and read): the reconciler must see it empty
+			if err := rn.Step(ribdrv.Input{A: "flush", NIs: in.NIs}); err != nil {
+				return err
+			}
+			kept := tops[:0]
+			for _, o := range tops {
+				flushed := false
+				for _, n := range in.NIs {
+					flushed = flushed || n == o.NI
+				}
+				if !flushed {
+					kept = append(kept, o)
+				}
+			}
+			tops = kept
 		case "freeze":
 			r, err := newIntended()
 			if err != nil {
@@ -230,6 +246,23 @@ func Run(rn *ribdrv.Runner, ins []Input, base uint64) error {
 		}
 	}
 	rn.Sink.Emit(ribdrv.Event{"ev": "reconend"})
+	// the same reconciler asked again, with a counter that starts lower than the ids it has already handed out: the RIBs are now
+	// equal, so it produces nothing and leaves the counter where the caller put it
+	id2 := &atomic.Uint64{}
+	base2 := base / 2
+	id2.Store(base2)
+	ops2, err := rec.Reconcile(context.Background(), id2)
+	ev2 := ribdrv.Event{"ev": "recon2", "base2": base2, "after": id2.Load(), "nops": 0, "error": ""}
+	if err != nil {
+		ev2["error"] = err.Error()
+	} else {
+		n := 0
+		for _, o := range []*reconciler.Ops{ops2.Add, ops2.Replace, ops2.Delete} {
+			n += len(o.NH) + len(o.NHG) + len(o.TopLevel)
+		}
+		ev2["nops"] = n
+	}
+	rn.Sink.Emit(ev2)
 	return nil
 }
 
@@ -295,6 +328,14 @@ func Structured(rng *rand.Rand) []Input {
 		add(ph, abs.Op{NI: topNI, Kind: kind, Key: "k1", PL: abs.TopPayloads[0], G: g, GNI: gni})
 	}
 	build("T", tG, tg)
+	if rng.Intn(3) == 0 {
+		// the target was populated, read, and then flushed (all of it, or the instance of the top-level entry)
+		fl := nis[:2]
+		if rng.Intn(2) == 0 {
+			fl = []string{topNI}
+		}
+		ins = append(ins, Input{Ph: "flushT", NIs: fl})
+	}
 	ins = append(ins, Input{Ph: "freeze", Scratch: true})
 	build("I", iG, ig)
 	return ins
